@@ -124,6 +124,12 @@ theorem stepO_acct (s s' : St) (h : Inv s) (ha : Acct s) (hs : stepO s = some s'
     · simp at hs; subst hs; exact acct_same s _ rfl rfl rfl rfl rfl ha
     · simp at hs
   case stuckL => simp at hs
+  case assertFail => simp at hs
+  case cl3 =>
+    simp only [releaseO, hcfg, code_unlockFence, if_true] at hs
+    split at hs
+    · simp at hs; subst hs; exact acct_same s _ rfl rfl rfl rfl rfl ha
+    · simp at hs
   case pux e t =>
     simp only [releaseO, hcfg, code_unlockFence, if_true] at hs
     split at hs
@@ -416,6 +422,25 @@ theorem overflow_tests_logical (s : St) (h : Inv s) :
   · intro e hpc
     obtain ⟨h1, h2, h3⟩ := h.pt2 e hpc
     rw [h1, viewTop_nil]; exact ⟨h2, h3⟩
+
+/-- clear's assertion `top == base` holds exactly when the deque is empty (it reads the logical values) -/
+theorem cl1_assert_iff (s : St) (h : Inv s) (hpc : s.opc = .cl1) :
+    (viewTop s.bufO s.top = viewBase s.bufO s.base ↔ s.A = []) ∧
+    viewTop s.bufO s.top = s.lt ∧ viewBase s.bufO s.base = s.lb := by
+  obtain ⟨h1, h2⟩ := h.cl1 hpc
+  have hl := h.lockO.2 (by simp [hpc, ownerLocked])
+  have htr : s.tr = false := by
+    cases ht : s.tr with
+    | false => rfl
+    | true => obtain ⟨q, hq⟩ := h.trn ht; rw [hl] at hq; cases hq
+  have hb := h.lbase (by simp [hpc, resetting])
+  simp [htr] at hb
+  have hlen := h.len
+  rw [h1, viewTop_nil, viewBase_nil]
+  refine ⟨⟨fun he => ?_, fun hA => ?_⟩, h2, hb⟩
+  · have : s.A.length = 0 := by omega
+    exact List.eq_nil_of_length_eq_zero this
+  · rw [hA] at hlen; simp at hlen; omega
 
 /-- **a declined steal leaves the candidate available** (TSO analogue of `decline_spec`): while the
     decision callback of `myth_wsapi_runqueue_take` is asked, the candidate is the head of the deque;
